@@ -148,6 +148,24 @@ def gen_cases(tier, rng):
         for differ in ('length', 'html_token', 'nope'):
             cases.append(mk(differ, GOOD[0], GOOD[1], extra=ex, headers={'Cookie': 'k=v'}))
             cases.append(mk(differ, BAD[2], GOOD[1], extra=ex))
+    # 5. every error class again with client headers and a pass_headers list in different spellings (the error path reads the request
+    # headers too): the shape of the error response must not depend on them
+    ph = ['Cookie', 'cookie', 'COOKIE,authorization', 'X-Custom, cookie', 'Not-Sent', 'authorization,x-custom']
+    hdrs = [{'Cookie': 'k=v', 'Authorization': 'Bearer t', 'X-Custom': '1'}, {'cookie': 'k=v'}, {}]
+    for differ in ('length', 'html_token'):
+        for f in FAILS[:9] + MEMENTOS[:1]:
+            for p_, h_ in itertools.product(ph, hdrs):
+                if tier == 'quick' and rng.random() > 0.35:
+                    continue
+                side = rng.choice(['a', 'b'])
+                up = dict(okup)
+                up[GOOD[0] if side == 'a' else GOOD[1]] = f
+                cases.append(mk(differ, GOOD[0], GOOD[1], upstream=up, extra=[('pass_headers', p_)], headers=h_))
+        for p_, h_ in itertools.product(ph[:3], hdrs[:2]):
+            cases.append(mk(differ, BAD[2], GOOD[1], extra=[('pass_headers', p_)], headers=h_))
+            cases.append(mk(differ, FILES[0], GOOD[1], production=True, extra=[('pass_headers', p_)], headers=h_))
+            cases.append(mk(differ, None, GOOD[1], extra=[('pass_headers', p_)], headers=h_))
+            cases.append(mk('nope', GOOD[0], GOOD[1], extra=[('pass_headers', p_)], headers=h_))
     return cases
 
 
